@@ -1,5 +1,6 @@
 //! Engine E4: exhaustive enumeration of configuration x scripted server behaviour over
 //! loopback sockets (real LdapConnAsync / LdapConn constructors, real TCP / Unix / TLS).
+pub mod c04real;
 pub mod c17;
 pub mod c18;
 
